@@ -297,7 +297,7 @@ func c04Child(a *ChildArgs) {
 			}
 			c04Soup(a, sb.String())
 		}
-		for _, s := range []string{"SELECT $foo FROM t", "SELECT $abc", "$a b$", "SELECT @order by id", "SELECT @left JOIN x", "SELECT \u017Felect", "a$b", "$1x", "$$", "x$$y$$", ":a:b", "??", "?|&", "1e", "1.2.3", "..", "1..2"} {
+		for _, s := range []string{"SELECT $foo FROM t", "SELECT $abc", "$a b$", "SELECT @order by id", "SELECT @left JOIN x", "SELECT \u017Felect", "\u017Felect 1", "\u0131n", "SELECT 1 \u0131n (1)", "a$b", "$1x", "$$", "x$$y$$", ":a:b", "??", "?|&", "1e", "1.2.3", "..", "1..2"} {
 			c04Soup(a, s)
 		}
 	case "random":
@@ -404,6 +404,13 @@ func c04Soup(a *ChildArgs, text string) {
 		return
 	}
 	a.Rec.Count("soup_accepted", 1)
+	// a word with a non-ASCII letter is a name, never a keyword (ſ and ı fold to ASCII letters under ToUpper)
+	for i, t := range toks {
+		if t.Token.Type != models.TokenTypeIdentifier && t.Token.Quote == 0 && tokClass(t.Token) == lexgen.Word && !isASCII(t.Token.Value) {
+			a.Rec.Viol("C04/soup/non-ascii-keyword", "each element with its kind", fmt.Sprintf("token %d %q (type %v) contains a non-ASCII letter and is typed as a keyword", i, t.Token.Value, t.Token.Type), map[string]interface{}{"text": text, "tokens": tokTexts(toks)})
+			return
+		}
+	}
 	lines := linesOf(text)
 	plain := true
 	for _, l := range lines {
@@ -441,6 +448,12 @@ func c04Soup(a *ChildArgs, text string) {
 			covered[k] = true
 		}
 		src := text[s0:e0]
+		// a parameter, number or operator is one lexeme: it never extends over a blank (only keywords are merged
+		// into compound tokens)
+		if cl := tokClass(t.Token); (cl == lexgen.Placeholder || cl == lexgen.Number || cl == lexgen.Op) && strings.ContainsAny(src, " \n\t") {
+			a.Rec.Viol("C04/soup/merged-lexemes/"+cl.String(), "nothing added, dropped or merged", fmt.Sprintf("token %d %q covers the text %q: two lexemes in one token", i, t.Token.Value, src), wit)
+			return
+		}
 		switch tokClass(t.Token) {
 		case lexgen.Word, lexgen.Number, lexgen.Op, lexgen.Placeholder:
 			norm := func(x string) string { return strings.ToUpper(strings.Join(strings.Fields(stripComments(x)), " ")) }
@@ -500,3 +513,12 @@ func mustParse(sql string) interface{} {
 }
 
 var _ = tokenizer.MaxTokens
+
+func isASCII(s string) bool {
+	for i := 0; i < len(s); i++ {
+		if s[i] >= 0x80 {
+			return false
+		}
+	}
+	return true
+}
